@@ -19,3 +19,4 @@ def run(ctx, R):
     R.floor('window instances', n, 8)
     v1model.c01_rules(ctx, R)
     v1model.c01_accept(ctx, R, 'C01.A')
+    v1model.c01_accept_unknown(ctx, R, 'C01.A')
